@@ -114,7 +114,9 @@ def captured_local(root, bb_call, ups, idx):
 
 def deviation_kernel(prog, name):
     """→ dict(init, update (T-term in ACC, a, b), producers ok, root, closure)"""
-    root = prog.method("DeviationExt", name)
+    from .facts import inline_calls
+    from .rules_zones import helper_filter
+    root = inline_calls(prog, prog.method("DeviationExt", name), helper_filter(prog))      # a shared private traversal helper is read in place
     zf = zip_foreach(prog, root)
     if zf is None:
         # fold form: Zip::from(self).and(other).fold(init, |acc, a, b| …)
@@ -435,8 +437,12 @@ def routine_value(prog, root, param_syms=None, extra=None, kernel_cls=None):
             f = ds(x[3][1])
             if isinstance(f, tuple) and f[0] == "agg" and f[1] == "closure":
                 cb = prog.bodies[f[2]]
-                Kc = Kernel(prog, cb, _leaf_for(prog, cb, {2: inner}, extra))
-                return Kc.term(cb.return_expr())
+                # captured values are evaluated where they were computed (the routine), with the routine's own leaf table
+                ret_, upd_ = closure_terms(prog, cb, {2: inner}, upvar_leaf=lambda u: K.term(f[3][u[1]]), kernel_cls=kernel_cls,
+                                           extra=lambda b_, e_: _leaf_for(prog, b_, {}, extra)(e_))
+                if upd_ or ret_ is None:
+                    raise Unrecognised("mapping closure is not a pure value")
+                return ret_
             if isinstance(f, tuple) and f[0] == "fn":
                 nm = f[1].rsplit("::", 1)[-1]
                 if nm in T.FN1:
@@ -1946,7 +1952,10 @@ def _is_iteration_item(prog, pb, pe):
             a = ds(a)
             if isinstance(a, tuple) and a[0] == "agg" and a[1] == "closure" and a[2] == pb.key:
                 recv = ds(ob_.call_arg_exprs(cbb)[0])
-                return isinstance(recv, tuple) and recv[0] == "call" and recv[1] in ("iter", "into_iter", "iter_mut", "zip", "indexed_iter", "enumerate")
+                return isinstance(recv, tuple) and recv[0] == "call" and recv[1] in (
+                    "iter", "into_iter", "iter_mut", "zip", "indexed_iter", "enumerate",
+                    # the item of an adaptor chain over such an iteration is still an element of it
+                    "filter", "map", "cloned", "copied", "chain", "peekable", "by_ref", "rev", "skip", "take", "inspect")
     return False
 
 
